@@ -971,6 +971,15 @@ class Exec:
             return self.eq(l, r, st)
         if isinstance(op, (ast.NotEq, ast.IsNot)):
             return z3.Not(self.eq(l, r, st))
+        if isinstance(l, VTuple) and isinstance(r, VTuple) and len(l.items) == len(r.items) and \
+                all(isinstance(x, (VInt, VBool)) for x in l.items + r.items):
+            # tuples of numbers compare lexicographically
+            xs, ys = [self.as_int(x) for x in l.items], [self.as_int(x) for x in r.items]
+            lt = z3.BoolVal(False)
+            for x, y in reversed(list(zip(xs, ys))):
+                lt = z3.Or(x < y, z3.And(x == y, lt))
+            eqs = z3.And(*[x == y for x, y in zip(xs, ys)]) if xs else z3.BoolVal(True)
+            return {ast.Lt: lt, ast.LtE: z3.Or(lt, eqs), ast.Gt: z3.Not(z3.Or(lt, eqs)), ast.GtE: z3.Not(lt)}[type(op)]
         a, b = self.as_int(l), self.as_int(r)
         return {ast.Lt: a < b, ast.LtE: a <= b, ast.Gt: a > b, ast.GtE: a >= b}[type(op)]
 
@@ -1428,7 +1437,7 @@ class Exec:
             return [(st, VInt(hashlib.new(o.alg).digest_size))]
         if isinstance(o, (VInt, VBytes, VBuf, VStr, VHash, VList, VDict)):
             return [(st, VBuiltin(attr, bound=o))]
-        if isinstance(o, VSet) and attr in ('add', 'update', 'discard'):
+        if isinstance(o, VSet) and attr in ('add', 'update', 'discard', 'union'):
             return [(st, VBuiltin(attr, bound=o))]
         if isinstance(o, VBuiltin) and o.name == 'superobj' and isinstance(o.bound, tuple) and isinstance(o.bound[0], VClass):
             C, selfv = o.bound
@@ -2663,6 +2672,16 @@ class Exec:
         if isinstance(b, VList) and name == 'append':
             st.heap[b.cell] = st.heap[b.cell] + (A[0],)
             return [(st, VNone())]
+        if isinstance(b, VSet) and name == 'union':
+            # s.union(*iterables): a new set with the members of all of them (members kept as they come: duplicates are harmless for
+            # membership and are merged by sorted() / iteration only where they are concretely equal)
+            b = b.view(st)
+            if b.conds is not None or any(isinstance(a, VSet) and a.view(st).conds is not None for a in A):
+                raise ToolLimit('union of sets with symbolic membership through the method')
+            items = list(b.items)
+            for a in A:
+                items += self.iter_items(a.view(st) if isinstance(a, VSet) else a, st)
+            return [(st, VSet(items))]
         if isinstance(b, VSet) and name in ('add', 'update', 'discard'):
             b = b.view(st)
             T = z3.BoolVal(True)
